@@ -14,7 +14,7 @@ from ..rdfmodel import RDF_TYPE, RDF, to_nt, to_tsv, to_simple_turtle, to_rdflib
 PID = "C04"
 RULE = ("Hypothesis: general graphs + adversarial mixes (IRI+bnode values with/without classes, blank-node classes, classes typed by "
         "classes, nodes without outgoing triples, one-instance classes, target classes without instances, language tags) x every "
-        "accepted configuration (target mode, instantiation property, 6 switches, or-flags, remove_empty_shapes, disable_comments, "
+        "accepted configuration (target mode incl. shape maps in both syntaxes, instantiation property, 6 switches, or-flags, remove_empty_shapes, disable_comments, "
         "decimals, report modes, namespaces_dict, shapes_namespace, instances_cap, namespaces_to_ignore, detect_minimal_iri, "
         "examples_mode, thresholds incl. k/n) x {ShExC, SHACL} x {shex_graph, profile_graph} x input {NT, TSV, TURTLE, TURTLE_ITER, "
         "rdflib Graph}.  Oracle: no exception / confirmed hang; result is text.  Non-trivial: the case has >=1 adversarial feature "
@@ -85,6 +85,12 @@ def cases(draw):
     target = draw(common.target_spec(g))
     if target["mode"] == "classes" and draw(st.integers(0, 3)) == 0:
         target["classes"] = target["classes"] + ["http://ex.org/C9"]
+    if draw(st.integers(0, 4)) == 0:
+        from . import c10
+        n = draw(st.integers(1, 3))
+        target = {"mode": "sm", "with_all": draw(st.integers(0, 3)) == 0, "json": draw(st.booleans()),
+                  "items": [{"sel": draw(c10.selector(g)), "label": draw(st.sampled_from(["<http://sh.org/S%d>" % i, "ex:S%d" % i, "<S%d>" % i])),
+                             "styles": draw(st.lists(st.integers(0, 1), min_size=4, max_size=4))} for i in range(n)]}
     thr = draw(gg.thresholds())
     fmt = draw(st.sampled_from(["ShEx", "ShEx", "Shacl"]))
     call = draw(st.sampled_from(["shex_graph"] * 5 + ["profile_graph"]))
@@ -98,10 +104,29 @@ def strategy(tier):
 
 
 def build_kwargs(case, tmp):
+    sm = None
+    if case["target"]["mode"] == "sm":
+        sm = case["target"]
+        case = dict(case, target={"mode": "all"})
     kw, triples = common.base_kwargs(case)
-    if "namespaces_dict" in case["cfg"]:
+    if sm is not None:
+        import json as _json
+        from .. import selectors
+        from . import c10
+        if not sm["with_all"]:
+            kw.pop("all_classes_mode", None)
+        texts = [(selectors.render(it["sel"], c10.NSD, it["styles"]), it["label"]) for it in sm["items"]]
+        if sm["json"]:
+            kw["shape_map_raw"] = _json.dumps([{"nodeSelector": a, "shapeLabel": b} for a, b in texts])
+            kw["shape_map_format"] = "json"
+        else:
+            kw["shape_map_raw"] = "\n".join("%s@%s" % t for t in texts)
+        kw["namespaces_dict"] = dict(c10.NSD)
+    if "namespaces_dict" in case["cfg"] and sm is None:
         kw["namespaces_dict"] = dict(case["cfg"]["namespaces_dict"])
     inp = case.get("input", "nt")
+    if sm is not None and inp in ("tsv_spo", "turtle_iter"):
+        inp = "nt"      # shape maps need an rdflib-readable format (C20-SM-FORMAT is C20's known finding)
     if inp == "tsv_spo":
         kw["raw_graph"] = to_tsv(triples)
         kw["input_format"] = "tsv_spo"
@@ -151,7 +176,7 @@ def check(case):
     with sut.tmpdir() as tmp:
         kw, triples = build_kwargs(case, tmp)
         labels = adversarial_features(case, triples)
-        labels |= {"fmt:" + case["format"], "call:" + case["call"], "in:" + case.get("input", "nt")}
+        labels |= {"fmt:" + case["format"], "call:" + case["call"], "in:" + case.get("input", "nt"), "target:" + case["target"]["mode"]}
         for k in ("disable_or_statements", "remove_empty_shapes", "instances_cap", "namespaces_to_ignore", "detect_minimal_iri",
                   "examples_mode", "inverse_paths"):
             if case["cfg"].get(k) not in (None, False) or (k in ("disable_or_statements", "remove_empty_shapes") and case["cfg"].get(k) is False):
